@@ -25,6 +25,7 @@ import GomlVerif.Driver.C01pipe
 import GomlVerif.Driver.Unify
 import GomlVerif.Driver.Solve
 import GomlVerif.Driver.GoPP
+import GomlVerif.Driver.Lower
 
 def main (args : List String) : IO UInt32 := do
   match args with
@@ -58,4 +59,5 @@ def main (args : List String) : IO UInt32 := do
   | ["unify"] => Goml.Driver.Unify.main; return 0
   | ["solve"] => Goml.Driver.Solve.main; return 0
   | ["gopp"] => Goml.Driver.GoPP.main; return 0
+  | ["lower"] => Goml.Driver.Lower.main; return 0
   | _ => IO.eprintln "usage: gomlmodel <c05|…> < lines"; return 2
